@@ -125,7 +125,7 @@ def _simple(e):
         e = e.a[2]
     if e is None:
         return False
-    if e.k in ('var', 'const', 'this', 'null', 'str'):
+    if e.k in ('var', 'const', 'this', 'null', 'str', 'memfn'):
         return True
     if e.k == 'field':
         return _simple(e.a[0])
@@ -200,6 +200,9 @@ class Inliner:
                 return E('var', ren[x.a[0]], loc=x.loc, ty=x.ty, raw=x.raw)
             if x.k == 'this' and recv is not None and recv.k != 'this':
                 return recv
+            if x.k == 'call' and x.a[0] == '.*' and x.a[2] and x.a[2][0].k == 'memfn':
+                # (object.*pointer)(args) with the pointer now known: the member call it stands for
+                return E('call', x.a[2][0].a[0], x.a[1], list(x.a[2][1:]), loc=x.loc, ty=x.ty, raw=None)
             return None
         body = [_map_stmt(s, fe, lambda n: ren.get(n, n)) for s in body]
         void = not f.ret or f.ret.strip() == 'void'
